@@ -203,6 +203,20 @@ def step (line : String) : String :=
       (resJson (FuncAttr.funcRT pr) fun r =>
         Json.mkObj ((match r.typ with | some t => [("typ", Json.str (String.ofList t))] | none => []) ++
           (match r.default with | some v => [("default", valToJson v)] | none => []))).compress
+    | .ok "emit_docstring" =>
+      let emit := (j.getObjValAs? Bool "emit").toOption.getD true
+      let ir := match j.getObjVal? "ir" with | .ok i => irOfJson i | _ => {}
+      let st : DocEmit.Style := if (j.getObjValAs? String "style").toOption.getD "" == "google" then .google else .numpydoc
+      (resJson (DocEmit.emitDocstring st ir emit) fun t => Json.str (String.ofList t)).compress
+    | .ok "emit_param_str" =>
+      let pr := paramOfJson ((j.getObjVal? "param").toOption.getD Json.null)
+      let nm := (optStr j "name").getD []
+      let emit := (j.getObjValAs? Bool "emit").toOption.getD true
+      let r : Res Str := match (j.getObjValAs? String "style").toOption.getD "" with
+        | "numpydoc" => DocEmit.emitParamStrNumpy nm pr emit
+        | "google" => DocEmit.emitParamStrGoogle nm pr emit
+        | _ => (emitParamStrRest nm pr emit).bind fun x => .ok x.1
+      (resJson r fun t => Json.str (String.ofList t)).compress
     | .ok "param2ast" =>
       let pr := paramOfJson ((j.getObjVal? "param").toOption.getD Json.null)
       (resJson (ClassAttr.param2ast pr) fun a =>
